@@ -173,7 +173,7 @@ def isolated_outputs(labels):
     return labels[-1], res
 
 
-def isolated_many(label_lists, workers=12):
+def isolated_many(label_lists, workers=16):
     import multiprocessing as mp
     ctxm = mp.get_context("spawn")
     with ctxm.Pool(processes=workers, maxtasksperchild=1) as pool:
@@ -202,7 +202,16 @@ def cross_instance_checks(ctx, grid, start, start_shuffled, end, report):
                        {"cross_instance": True})
     labels = [ukey(it) for it in grid]
     if ctx.quick:
-        labels = [ukey(it) for i, it in enumerate(grid) if it["kind"] != "level" or i % 3 == 0]
+        import inspect as _inspect
+
+        def shared_default(cls):
+            try:
+                ps = _inspect.signature(cls.__init__).parameters.values()
+            except (TypeError, ValueError):
+                return False
+            return any(isinstance(p.default, (list, dict, set)) for p in ps)
+        # every item of a class with a mutable default argument, every fourth of the others
+        labels = [ukey(it) for i, it in enumerate(grid) if shared_default(it["cls"]) or i % 4 == 0]
     t0 = time.time()
     iso = dict(isolated_many([[lb] for lb in labels]))
     ctx.cov["isolated_subprocess_constructions"] = len(iso)
